@@ -261,3 +261,8 @@ package parser
 //@   assert after call option.UnescapeIdentifier#*: [identifier-unescaping-only-for-quoted-identifiers] ch == 96 || (s.ansiQuotes && ch == 34) || ch == VariableSign
 //@   modifies s, fresh, key:E:string#0
 
+// DISTINCT flag of a select clause (used by the contracts of package query)
+//@ func (SelectClause).IsDistinct
+//@   property C17 C04
+//@   ensures [definition] result == (sc.Distinct.Token == DISTINCT)
+//@   modifies nothing
